@@ -12,8 +12,6 @@
 //!   O\t<obligation name>            (driver-side coverage counter, no oracle)
 //! tools/check.py assembles these into the ndjson of runs that TLC reads.
 
-pub mod fam;
-
 use serde_json::{json, Value};
 use std::fs::File;
 use std::io::{BufWriter, Write};
@@ -250,10 +248,10 @@ pub fn parse_opts() -> Opts {
         extra: vec![],
     };
     let mut i = 1;
-    if i < args.len() {
-        o.fam = args[i].clone();
-        i += 1;
-    }
+    o.fam = std::path::Path::new(&args[0])
+        .file_name()
+        .map(|s| s.to_string_lossy().to_string())
+        .unwrap_or_default();
     while i < args.len() {
         let a = args[i].as_str();
         let mut val = || {
@@ -337,4 +335,22 @@ impl std::io::Seek for SchedReader {
         self.log.push((1, np as u64, np as u64));
         Ok(np as u64)
     }
+}
+
+/// `fn main() { bio_verif_harness::run(drive) }` — every family is its own binary
+/// `src/bin/<family>.rs`, so a family that does not compile cannot break another check.
+pub fn run(drive: fn(&mut Log)) {
+    let opts = parse_opts();
+    if opts.out.is_empty() {
+        eprintln!("usage: <family> --out FILE [--tier quick|thorough] [--seed N] [--shard i/n] [--skip N] [--replay FILE] [--budget PCT]");
+        std::process::exit(2);
+    }
+    let timeout: u64 = std::env::var("VERIF_CALL_TIMEOUT_MS")
+        .ok()
+        .and_then(|s| s.parse().ok())
+        .unwrap_or(20_000);
+    install_guards(timeout, 4 << 30);
+    let mut log = Log::new(opts);
+    drive(&mut log);
+    log.finish();
 }
